@@ -53,9 +53,9 @@ RUNS = {
         dict(name='depth2-biaffine-b', bases=BI5[2:5], depth=2, level=1, ops=ALL_OPS, selfdepth=2, cap=None, variants='rotate'),
         dict(name='depth2-full-catalogue', bases=[A([3]), A([2, 2])], depth=2, level=2, ops=ALL_OPS, selfdepth=1, cap=None, variants='rotate'),
         dict(name='depth4-simulated-affine', bases=[A(s) for s in ([3], [2, 3], [3, 3], [2, 3, 2], [2, 1, 3])], depth=4, level=1,
-             ops=ALL_OPS, selfdepth=4, cap=None, variants='rotate', simulate=1500),
+             ops=ALL_OPS, selfdepth=4, cap=None, variants='rotate', simulate=700),
         dict(name='depth3-simulated-biaffine', bases=BI5[0:4], depth=3, level=1, ops=BI_OPS, selfdepth=3, cap=None, variants='rotate',
-             simulate=1500),
+             simulate=700),
     ],
 }
 COVERAGE_RUN = dict(name='coverage', bases=[BI([2, 3], [3]), A([3])], depth=1, level=1, ops=ALL_OPS, selfdepth=0)
